@@ -46,7 +46,7 @@ TraceTxn ==
 
 TraceSkip ==
   /\ l <= Len(Trace) /\ Trace[l].ev \notin {"Reset", "Txn"}
-  /\ l' = l + 1 /\ ev' = Null
+  /\ l' = l + 1 /\ ev' = Trace[l]
   /\ UNCHANGED <<bal, nonce, prenonce, applied>>
 
 TraceNext == TraceReset \/ TraceTxn \/ TraceSkip
@@ -85,6 +85,14 @@ C02_FailOnlyFee ==
           THEN Len(ev.delta) = 0
           ELSE /\ Accounts = {ev.from, "minersc"}
                /\ Delta(ev.from) = -ev.fee /\ Delta("minersc") = ev.fee
+
+(* C02, observationally: the sealed block was re-executed on a fork with every       *)
+(* chargeable-failed call replaced by a call that can only pay its fee (same sender, *)
+(* nonce, fee).  If failed calls leave nothing behind, both executions agree: same   *)
+(* outcome for every later transaction, same balances/nonces, same contract nodes.   *)
+(* This also sees writes that survive only in the state cache.                       *)
+C02_TwinEqual ==
+  (ev.ev = "BlockTwin" /\ ~IsKnown(ev)) => (ev.classes_equal /\ ev.leaves_equal /\ ev.nodes_equal)
 
 (* C03: applied iff nonce = state nonce + 1; +1 per applied txn; never     *)
 (* twice.  prenonce is the model's own nonce, so a nonce changed behind    *)
